@@ -146,7 +146,17 @@ func recase(r *rng, s string) string {
 	return sb.String()
 }
 
-var hspaces = []string{" ", "  ", "\t", " \t ", "\v", "\f", "   ", "\t\t"}
+var hspaces = func() []string {
+	out := []string{" ", "  ", "\t", " \t ", "\v", "\f", "   ", "\t\t", " ", "\t", "  "}
+	// every other white-space code point of the running unicode tables that is not a line break
+	// (NBSP, ogham space, en/em spaces, narrow and ideographic spaces, NEL, LS, PS)
+	for r := rune(0x80); r <= 0x3000; r++ {
+		if unicode.IsSpace(r) {
+			out = append(out, string(r))
+		}
+	}
+	return out
+}()
 
 func respace(r *rng, s string) string {
 	// replace runs of blanks/tabs inside the line by other runs; add or remove
@@ -167,8 +177,8 @@ func respace(r *rng, s string) string {
 		sb.WriteRune(rs[i])
 		i++
 	}
-	out := strings.TrimRight(sb.String(), " \t\v\f")
-	out = strings.TrimLeft(out, " \t\v\f")
+	out := strings.TrimRightFunc(sb.String(), unicode.IsSpace)
+	out = strings.TrimLeftFunc(out, unicode.IsSpace)
 	if r.chance(1, 2) {
 		out = hspaces[r.intn(len(hspaces))] + out
 	}
